@@ -171,6 +171,9 @@ o:
 					}
 					return sErr
 				}
+				// The map is reused for the next message: drop the entry so that a
+				// target the next message does not address is not sent this one again.
+				delete(addrMap, target)
 			}
 		}
 	}
